@@ -58,6 +58,8 @@ def corpus():
     out.append(("count_sum_wrap", "struct B { uint64 a; uint64 b; interface o; };\ninterface I { method f(%s); };\n" %
                 ", ".join("in interface[255] a%d" % i for i in range(2))))
     out.append(("comment_in_param", "interface I { method f(in /*c*/ uint32 x); };\n"))
+    out.append(("comment_in_array_size", "struct S { uint64[1// c\n] f; };\n"))
+    out.append(("nonascii_doc_and_array_size_0", "interface I2 {\n  /**\n   * doc 0\n   \u00e9*/\n  method m3();\n};\nstruct ZA { uint8[0] a; };\n"))
     out.append(("comment_in_const", "const uint32 X /* c */ = 1;\n"))
     out.append(("comment_in_iname", "interface B { method g(); };\ninterface I /*c*/ : B { method f(); };\n"))
     out.append(("comment_after_method", "interface I { method /*c*/ f(); };\n"))
@@ -146,11 +148,15 @@ def run(ctx):
     for k, (tag, txt) in enumerate(inputs):
         dbg, rls, tree = runs[k]
         h = hres.get(str(k))
-        if tree is None or tree[0] == "PARSE-ERROR" or not h or not pstdump.ascii_only(tree):
+        if tree is None or tree[0] == "PARSE-ERROR" or not h:
             continue
         ok = h["result"] == "ok"
+        # characters outside printable ASCII only occur inside comments, documentation and
+        # identifiers-to-be-rejected; both sides get the same placeholder so that the model is
+        # evaluated on these inputs too
+        san = lambda x: "".join(c if (32 <= ord(c) < 127 or c in "\n\t\r") else "?" for c in x)
         d = "Definition t_%d : tree := %s.\nDefinition a_%d : list node := %s.\n" % (
-            k, pstdump.gallina(tree), k, ("a_nodes " + h["ast"]) if ok else "[]")
+            k, san(pstdump.gallina(tree)), k, ("a_nodes " + san(h["ast"])) if ok else "[]")
         defs.append((k, d, "chk_pst false t_%d %s a_%d" % (k, "true" if ok else "false", k)))
     results, errors = vlib.eval_cases(os.path.join(work, "coq"), "cases", "From MinkV Require Import Pst.\nOpen Scope list_scope.\n", defs, shard_size=20)
     for e in errors:
